@@ -247,7 +247,7 @@ def build_lib(backend="asm", triple=DEFAULT_TRIPLE, cc="gcc", opt="-O2", san=Non
     return res
 
 
-def build_prog(name, sources, lib=None, cc=None, extra=(), link=(), objs=(), cxx=False, opt="-O1", cfg_dep=False):
+def build_prog(name, sources, lib=None, cc=None, extra=(), link=(), objs=(), cxx=False, opt="-O1", cfg_dep=False, nosan=False, per_source_extra=None):
     """Compile harness sources (absolute or relative to /verif) and link against lib.
     Harness objects are cached by content; unless cfg_dep is set they are shared between library
     configurations (public headers do not depend on the configuration).  Returns the executable."""
@@ -259,7 +259,8 @@ def build_prog(name, sources, lib=None, cc=None, extra=(), link=(), objs=(), cxx
         for f in sorted(glob.glob(os.path.join(VERIF, pat))):
             hh.update(file_hash(f).encode())
     hdrs = hh.hexdigest()
-    sanflags = list(lib["sanflags"]) if lib else []
+    sanflags = list(lib["sanflags"]) if (lib and not nosan) else []
+    per_source_extra = per_source_extra or {}
     th = tree_hash() if lib else ""
     inc = ["-I" + os.path.join(VERIF, "harness"), "-I" + os.path.join(VERIF, "ref")]
     if lib:
@@ -275,13 +276,14 @@ def build_prog(name, sources, lib=None, cc=None, extra=(), link=(), objs=(), cxx
     for s in srcs:
         iscpp = s.endswith(".cpp") or s.endswith(".cc")
         use_cxx = use_cxx or iscpp
-        okey = hashlib.sha256(json.dumps([file_hash(s), hdrs, cc, opt, sanflags, list(extra), th,
+        sx = list(per_source_extra.get(os.path.basename(s), []))
+        okey = hashlib.sha256(json.dumps([file_hash(s), hdrs, cc, opt, sanflags, list(extra) + sx, th,
                                           lib["dir"] if (lib and cfg_dep) else None,
                                           lib["cflags"] if (lib and cfg_dep) else None]).encode()).hexdigest()[:20]
         o = os.path.join(objroot, okey + "-" + os.path.basename(s) + ".o")
         os_.append(o)
         pre = [cxxc, "-std=gnu++11"] if iscpp else [cc, "-std=gnu99"]
-        cmd = pre + [opt, "-g"] + sanflags + inc + list(extra) + ["-c", s]
+        cmd = pre + [opt, "-g"] + sanflags + inc + list(extra) + sx + ["-c", s]
         jobs.append((cmd, o))
     h = hashlib.sha256()
     h.update(json.dumps([name, os_, list(link), [file_hash(o) for o in objs], use_cxx]).encode())
